@@ -513,6 +513,15 @@ fn shard(seed: u64, shard: u64, n: u64) -> Tally {
                     t.count(&format!("inapplicable/{}", kind));
                     continue;
                 };
+                if !neutral {
+                    // a binding child is validated straight after its (accepted) parent, on the same thread: nothing the
+                    // parent's validation left behind may stand in for the child's own header block
+                    let again = execute(&parent);
+                    t.eval();
+                    if again.outcome.is_ok() {
+                        t.count("binding_children_run_right_after_their_parent");
+                    }
+                }
                 let rec = execute(&c);
                 t.eval();
                 if matches!(rec.outcome, Outcome::NotBuilt(_)) {
